@@ -325,11 +325,14 @@ Definition display_spec (l : list setting) : Z :=
   | Some (_, Some LaEnd) => 2
   end.
 (* distance of the line position from the top, percent: percentages as given; line number n >= 0 is the
-   n-th line from the top, n < 0 the |n|-th line from the bottom *)
+   n-th line from the top, n < 0 the |n|-th line from the bottom; a line beyond the first or last line of the
+   grid is shown on the first / last edge (WebVTT moves a cue box that leaves the viewport back into it) *)
 Definition line_offset_spec (v : lineval) : Q :=
   match v with
   | LinePct p => inject_Z p
-  | LineNum n => if 0 <=? n then (100 * inject_Z n / inject_Z rows)%Q else (100 + 100 * inject_Z n / inject_Z rows)%Q
+  | LineNum n =>
+    if 0 <=? n then (if rows <=? n then 100%Q else (100 * inject_Z n / inject_Z rows)%Q)
+    else (if n <=? - rows then 0%Q else (100 + 100 * inject_Z n / inject_Z rows)%Q)
   end.
 (* which edge of a horizontal region the line setting fixes *)
 Definition line_edge_ok (l : list setting) (r : region_view) : bool :=
